@@ -6,6 +6,7 @@ says the model of the code moves its flags and counters exactly so.  "Row `k` is
 means `rowNumber = k`; a row boundary is one `ctlStep`.
 -/
 import Wheatley.Lemmas.Ctl
+import Wheatley.Lemmas.Cli
 namespace Wheatley.C06
 
 /-- The stroke of row `k`: `true` = handstroke. -/
@@ -183,5 +184,14 @@ theorem opening_row_rung (b : Bot) (h : b.ringingOpening = true) :
 /-! Non-vacuity: a Go in row 4 (handstroke) of a handstroke-start method starts it at row 6;
 a Go in row 5 starts it at row 6 too. -/
 example : goCounter 4 true = 1 ∧ goCounter 5 true = 0 := by decide
+
+/-! ### The command line (`Model/Cli.lean`: `console_main`) -/
+
+/-- Up-down-in is on exactly when `-u` or `-H` was given (anywhere on the command line, any number of times) -
+whatever else was given. -/
+theorem cli_up_down_in (c : Parse.Chars) (os : List Cli.Opt) (u : Option (List Char × List Char)) (cfg : Cli.Cfg)
+    (h : Cli.consoleMain c os u = .built cfg) :
+    cfg.udi = (decide (Cli.Opt.udi ∈ os) || decide (Cli.Opt.handbell ∈ os)) :=
+  (Cli.main_built c os u cfg h).1
 
 end Wheatley.C06
